@@ -512,7 +512,7 @@ func (r *run) attempt() bool {
 						}
 					}
 				}
-				out, err := r.ep[st.Act.C].ch.Deliver(nil, w.bytes)
+				out, err := r.ep[st.Act.C].ch.Deliver(nil, append([]byte(nil), w.bytes...))
 				_ = err
 				if out != nil {
 					ev.App = true
@@ -608,7 +608,7 @@ func (r *run) settle(kf bool) bool {
 			r.mu.Unlock()
 			for _, w := range batch {
 				dst := r.ep[peer(w.from)]
-				out, _ := dst.ch.Deliver(nil, w.bytes)
+				out, _ := dst.ch.Deliver(nil, append([]byte(nil), w.bytes...))
 				if out != nil {
 					r.mu.Lock()
 					_, known := r.sentBy[string(out)]
